@@ -1,7 +1,28 @@
----- MODULE MCF ----
-EXTENDS Feature, TLC
-VARIABLES n1, n2
-Init == n1 \in 0..40 /\ n2 \in 0..40
-Next == UNCHANGED <<n1, n2>>
-Inv == LET a == Gen(1, n1)  b == Gen(2, n2) IN SymmetricD(a, b) /\ ZeroSelf(a) /\ CauchySchwarz(a, b)
-====
+-------------------------------- MODULE MCF --------------------------------
+(* TLC checks the algebraic facts of Feature.tla over every pair of lengths     *)
+(* (Mode "pairs") and the triangle inequality over every triple of lengths with *)
+(* the same packed length (Mode "triples").                                      *)
+EXTENDS FAlpha, TLC
+CONSTANTS Mode
+VARIABLES stage, n1, n2, n3
+vars == <<stage, n1, n2, n3>>
+Init == stage = 0 /\ n1 = 0 /\ n2 = 0 /\ n3 = 0
+Same(n) == {m \in 1..MaxLen : PackedLen(m) = PackedLen(n)}
+Next == \/ stage = 0 /\ stage' = 1 /\ n1' \in (IF Mode = "pairs" THEN 0..MaxLen ELSE 1..MaxLen) /\ UNCHANGED <<n2, n3>>
+        \/ stage = 1 /\ Mode = "pairs" /\ stage' = 2 /\ n2' \in 0..MaxLen /\ UNCHANGED <<n1, n3>>
+        \/ stage = 1 /\ Mode = "triples" /\ stage' = 2 /\ n2' \in Same(n1) /\ n3' \in Same(n1) /\ UNCHANGED n1
+Spec == Init /\ [][Next]_vars
+Inv == stage = 2 =>
+       IF Mode = "pairs"
+       THEN LET a == VecA(n1, n2)  b == VecB(n1, n2)  k == KOf(n1, n2) IN /\ SymmetricD(a, b) /\ ZeroSelf(a) /\ ZeroSelf(b) /\ CauchySchwarz(a, b) /\ CauchySchwarz(Scale(a, k), b)
+            /\ Parallel(a, k) /\ Opposite(a, k) /\ ScaleInv(a, b, k) /\ PackFacts(a) /\ PackFacts(b)
+            /\ Len(Pack(a)) \in PackedLens(n1)
+       ELSE LET a == TriA(n1, n2, n3)  b == TriB(n1, n2, n3)  c == TriC(n1, n2, n3) IN
+            /\ Triangle(a, b, c) /\ Triangle(b, c, a) /\ Triangle(c, a, b) /\ Triangle(a, a, b) /\ Triangle(a, b, b)
+            /\ FlatTriangle(a, b, PackedLen(n1)) /\ Triangle(a, b, Far(a, b, PackedLen(n1)))
+(* reachability witnesses (TLC must violate them) *)
+W_NoTruncation == stage = 2 => ~(n1 > 0 /\ n2 > 0 /\ PackedLen(n1) # PackedLen(n2) /\ SqDist(VecA(n1, n2), VecB(n1, n2)) > 0)
+W_NoNegativeCos == stage = 2 => Dot(VecA(n1, n2), VecB(n1, n2)) >= 0
+W_NoTightTriangle == stage = 2 /\ Mode = "triples" =>
+       LET a == TriA(n1, n2, n3)  b == TriB(n1, n2, n3)  c == TriC(n1, n2, n3) IN SqDist(a, c) <= SqDist(a, b) + SqDist(b, c)
+=============================================================================
